@@ -78,7 +78,7 @@ def handleC40 (c : Case) : Verdict :=
   if (c.findAll "error").size > 0 then .specfalse "C40:backup-failed" "backup-returned-an-error" else
   match c.find "step", c.find "trees" with
   | some st, some tr =>
-    let fl : Flags := ⟨st.getD 2 "0" == "1", st.getD 3 "0" == "1"⟩
+    let fl : Flags := cliFlags (st.getD 2 "0" == "1") (st.getD 3 "0" == "1")
     let skipReq := st.getD 4 "0" == "1"
     let flats (k : String) := (c.findAll k).toList.map parseFlat40
     let one (l : List (TNode String)) := match l with | [t] => some t | _ => none
@@ -130,7 +130,7 @@ def handleC40 (c : Case) : Verdict :=
             let reused := match incr with | some i => reusedFiles pIDs [] i | none => 0
             let (nf, nd) := countKinds full
             let labels := ((st.getD 5 "").splitOn ",").map ("edit-" ++ ·) ++
-              (if fl.ignoreCtime then ["ignore-ctime"] else []) ++ (if fl.ignoreInode then ["ignore-inode"] else []) ++
+              (if st.getD 2 "0" == "1" then ["opt-ignore-ctime"] else []) ++ (if st.getD 3 "0" == "1" then ["opt-ignore-inode"] else []) ++
               (if skipReq then ["skip-requested"] else []) ++ (if !created then ["snapshot-omitted"] else []) ++
               (if hyp then ["hyp-holds"] else ["hyp-violated-trees-differ-as-predicted"]) ++
               (if reused > 0 then ["content-reused"] else ["nothing-reused"]) ++
